@@ -19,6 +19,7 @@ use crate::world::*;
 
 pub const REPO_SITES: &[&str] = &[
     "db.run.bound",
+    "txn.start.before_pin",
     "txn.start.pinned",
     "txn.commit.flushed",
     "txn.commit.dv_written",
@@ -181,11 +182,41 @@ async fn reader(
             return Err("no-table".into());
         };
         let t = s.get_table(id).map_err(|_| "no-table".to_string())?;
-        rec.before_pin = sh.lock().unwrap().tick();
-        rec.live = manifest_live(&root);
-        rec.j_pin = interpose::journal_len();
-        let txn = t.read().await.map_err(|e| e.to_string())?;
-        rec.after_pin = sh.lock().unwrap().tick();
+        // what the reader pins is observed at the instant of the pin (other actors can run
+        // between `read()` being called and the pin, and between the pin and its return)
+        type PinObs = (u64, u64, std::collections::BTreeSet<String>, usize);
+        let obs: Arc<Mutex<Option<PinObs>>> = Arc::new(Mutex::new(None));
+        let me = tokio::task::id();
+        {
+            let (obs, sh, root) = (obs.clone(), sh.clone(), root.clone());
+            ctl.watch_pin(
+                me,
+                Box::new(move || {
+                    let (a, b) = {
+                        let mut h = sh.lock().unwrap();
+                        (h.tick(), h.tick())
+                    };
+                    *obs.lock().unwrap() = Some((a, b, manifest_live(&root), interpose::journal_len()));
+                }),
+            );
+        }
+        let started = t.read().await;
+        ctl.unwatch_pin(me);
+        let txn = match started {
+            Ok(t) => t,
+            // the table was dropped before the scan could start: not a scan that had started
+            Err(e) if e.to_string().contains("NotFound") && obs.lock().unwrap().is_none() => {
+                return Err("no-table".into());
+            }
+            Err(e) => return Err(e.to_string()),
+        };
+        let Some((before, after, live, j_pin)) = obs.lock().unwrap().take() else {
+            return Err("pin was not observed".into());
+        };
+        rec.before_pin = before;
+        rec.after_pin = after;
+        rec.live = live;
+        rec.j_pin = j_pin;
         hgate(&ctl, "h.reader.scan").await;
         let cols: Vec<StorageColumnRef> = (0..ncols).map(StorageColumnRef::Idx).collect();
         let mut it = txn
@@ -618,6 +649,29 @@ pub async fn run(cx: &mut Ctx) {
         ));
     }
     cx.stats.statements = stmts.len() as u64;
+
+    // ---- C10: a statement that scans one table twice sees one state of it
+    if p == "C10" {
+        for s in &stmts {
+            if let (Stmt::Raw(sql), Some(Outcome::Ok(rows))) = (&s.stmt, &s.outcome) {
+                if sql.contains(" NOT IN (SELECT ") && rows.first().and_then(|r| r.first()) != Some(&Val::Int(0)) {
+                    cx.violate(Violation::new(
+                        "C10",
+                        "statement-saw-two-states",
+                        None,
+                        format!(
+                            "session {} {sql} returned {} (events {}..{}): its two scans of the table saw different states, no serial order explains a non-zero count",
+                            s.session,
+                            rows_brief(rows, 2),
+                            s.invoke,
+                            s.ret.unwrap_or(0)
+                        ),
+                    ));
+                    break;
+                }
+            }
+        }
+    }
 
     // ---- oracles common to the three properties: no deadlock, no panic
     if deadlock {
